@@ -3,6 +3,7 @@ import Gv.Driver.Comments
 import Gv.Driver.Settings
 import Gv.Driver.Signature
 import Gv.Driver.Layout
+import Gv.Driver.Gen
 
 open Gv Gv.Sexp Gv.Driver
 
@@ -19,6 +20,7 @@ def dispatch (req : Sexp) : Sexp :=
   | some "place" => handlePlace req
   | some "cli" => handleCli req
   | some "misc" => handleMisc req
+  | some "gen" => handleGen req
   | _ => mkList "err" [.atom "unknown-request"]
 
 partial def loop (hin hout : IO.FS.Stream) : IO Unit := do
